@@ -6,16 +6,18 @@ open Std.Do WS.SP WS.Flood
 set_option mvcgen.warning false
 
 /-- after the levels / between two sweeps -/
-structure R2i (n : Nat) (s : St) (imo : Array Int) : Prop where
+structure R2i (n : Nat) (g : Graph) (s : St) (imo : Array Int) : Prop where
   so : imo.size = n
+  hh : ∀ p, p < n → g.level p < s.h
   lab : s.lab = imo.map labC
   ph : s.phase = .idle ∨ s.phase = .sweeping
   fin : ∀ p, p < n → s.finOf p = true
   lo : ∀ p, p < n → 0 ≤ imo[p]!
 
 /-- inside a sweep: snapshot `imo`, working copy `imd`, pixels `< j` visited -/
-structure R2 (n : Nat) (s : St) (imo imd : Array Int) (j : Nat) : Prop where
+structure R2 (n : Nat) (g : Graph) (s : St) (imo imd : Array Int) (j : Nat) : Prop where
   so : imo.size = n
+  hh : ∀ p, p < n → g.level p < s.h
   sd : imd.size = n
   lab : s.lab = imd.map labC
   snap : s.snap = imo.map labC
@@ -42,28 +44,28 @@ theorem step_resolve {g : Graph} {s : St} {p q : Nat} (hph : s.phase = .sweeping
   rw [if_pos ⟨hph, hp, hq, h1, h2, hc, h3, h4, h5⟩]
 
 theorem RIdle.to2 {s : St} {imo imd : Array Int} {icl : Int} {ih : Nat} {m : Int}
-    (h : RIdle n ind g s imo imd icl ih m) (hl : ∀ p, p < n → g.level p < ih) : R2i n s imo :=
-  ⟨h.base.so, h.base.lab, Or.inl h.ph, fun p hp => (h.base.old p hp (hl p hp)).1, fun p hp => (h.base.old p hp (hl p hp)).2⟩
+    (h : RIdle n ind g s imo imd icl ih m) (hl : ∀ p, p < n → g.level p < ih) : R2i n g s imo :=
+  ⟨h.base.so, fun p hp => by rw [h.base.h]; exact hl p hp, h.base.lab, Or.inl h.ph, fun p hp => (h.base.old p hp (hl p hp)).1, fun p hp => (h.base.old p hp (hl p hp)).2⟩
 
-theorem R2i.sweep {s : St} {imo : Array Int} (h : R2i n s imo) :
+theorem R2i.sweep {s : St} {imo : Array Int} (h : R2i n g s imo) :
     step g s .sweep = some { s with phase := .sweeping, snap := s.lab } ∧
-    R2 n { s with phase := .sweeping, snap := s.lab } imo imo 0 :=
-  ⟨step_sweep h.ph, h.so, h.so, h.lab, h.lab, rfl, h.fin, h.lo, h.lo, fun _ _ _ => rfl⟩
+    R2 n g { s with phase := .sweeping, snap := s.lab } imo imo 0 :=
+  ⟨step_sweep h.ph, h.so, h.hh, h.so, h.lab, h.lab, rfl, h.fin, h.lo, h.lo, fun _ _ _ => rfl⟩
 
-theorem R2.skip {s : St} {imo imd : Array Int} {j : Nat} (h : R2 n s imo imd j) : R2 n s imo imd (j + 1) :=
+theorem R2.skip {s : St} {imo imd : Array Int} {j : Nat} (h : R2 n g s imo imd j) : R2 n g s imo imd (j + 1) :=
   { h with rest := fun p hp hj => h.rest p hp (by omega) }
 
-theorem R2.done {s : St} {imo imd : Array Int} {j : Nat} (h : R2 n s imo imd j) : R2i n s imd :=
-  ⟨h.sd, h.lab, Or.inr h.ph, h.fin, h.lod⟩
+theorem R2.done {s : St} {imo imd : Array Int} {j : Nat} (h : R2 n g s imo imd j) : R2i n g s imd :=
+  ⟨h.sd, h.hh, h.lab, Or.inr h.ph, h.fin, h.lod⟩
 
 theorem snapOf_map {s : St} {imo : Array Int} (h : s.snap = imo.map labC) {p : Nat} (hp : p < imo.size) :
     s.snapOf p = labC imo[p]! := by
   unfold St.snapOf; rw [h]; exact getD_map _ _ hp
 
-theorem R2.resolve (C : Ctx n nb imi ind g) {s : St} {imo imd : Array Int} {j q : Nat} (h : R2 n s imo imd j)
+theorem R2.resolve (C : Ctx n nb imi ind g) {s : St} {imo imd : Array Int} {j q : Nat} (h : R2 n g s imo imd j)
     (hj : j < n) (hc : imo[j]! = 0) (hq : q ∈ g.adj j) (hl : imo[q]! ≠ 0) :
     step g s (.resolve j q) = some { s with lab := s.lab.setIfInBounds j (s.snapOf q) } ∧
-    R2 n { s with lab := s.lab.setIfInBounds j (s.snapOf q) } imo (imd.set! j imo[q]!) (j + 1) := by
+    R2 n g { s with lab := s.lab.setIfInBounds j (s.snapOf q) } imo (imd.set! j imo[q]!) (j + 1) := by
   have hqn := C.adj_lt hj hq
   have hjs : j < imo.size := by rw [h.so]; exact hj
   have hqs : q < imo.size := by rw [h.so]; exact hqn
@@ -75,7 +77,7 @@ theorem R2.resolve (C : Ctx n nb imi ind g) {s : St} {imo imd : Array Int} {j q 
     · rw [snapOf_map h.snap hjs, hc]; rfl
     · rw [labOf_map h.lab hjd, h.rest j hj (Nat.le_refl _), hc]; rfl
     · rw [snapOf_map h.snap hqs]; exact (labC_isBasin (by omega)).mpr (by omega)
-  · refine ⟨h.so, by simp [h.sd], ?_, h.snap, h.ph, fun p hp => h.fin p hp, h.lo, ?_, ?_⟩
+  · refine ⟨h.so, h.hh, by simp [h.sd], ?_, h.snap, h.ph, fun p hp => h.fin p hp, h.lo, ?_, ?_⟩
     · show s.lab.setIfInBounds j (s.snapOf q) = _
       rw [snapOf_map h.snap hqs, h.lab, map_set]
     · intro p hp; rw [hget]; split
@@ -88,10 +90,10 @@ theorem R2.resolve (C : Ctx n nb imi ind g) {s : St} {imo imd : Array Int} {j q 
 /-! ### Hoare triples -/
 
 def G2i (n : Nat) (g : Graph) (trace : Array Step) (imo : Array Int) : Prop :=
-  ∃ s : St, run g trace.toList = some s ∧ R2i n s imo
+  ∃ s : St, run g trace.toList = some s ∧ R2i n g s imo
 
 def G2 (n : Nat) (g : Graph) (trace : Array Step) (imo imd : Array Int) (j : Nat) : Prop :=
-  ∃ s : St, run g trace.toList = some s ∧ R2 n s imo imd j
+  ∃ s : St, run g trace.toList = some s ∧ R2 n g s imo imd j
 
 variable {trace : Array Step} {imo imd : Array Int}
 
